@@ -405,3 +405,171 @@ Proof.
   - apply (ri_quiet h); [exact I|split; [change (NR noex h h); apply nr_refl|apply Qerr]].
   - apply (ri_quiet h); [exact I|split; [change (NR noex h h); apply nr_refl|apply Qerr]].
 Qed.
+
+(* ------------------------------------------------------------------ the steps *)
+From Verif Require Import proofs.Hub_isolation proofs.Hub_transient_nr2.
+
+Lemma nr_with_session ex h0 h c f :
+  (forall cn sid s, aget (h_conns h) c = Some cn -> c_sess cn = Some sid -> get_sess h sid = Some s -> nres ex h0 (f cn sid s)) ->
+  NR ex h0 h -> nres ex h0 (with_session h c f).
+Proof.
+  intros Hf B. unfold with_session.
+  assert (Qerr : forall e, qouts [ToConn c (SError e)]) by (intros e; apply qouts_cons; [intros ? ? E; injection E as <- <-; reflexivity|apply qouts_nil]).
+  destruct (aget (h_conns h) c) as [cn|] eqn:E1; [|split; [exact B|apply qouts_nil]].
+  destruct (c_sess cn) as [sid|] eqn:E2; [|split; [exact B|apply Qerr]].
+  destruct (get_sess h sid) as [s|] eqn:E3; [|split; [exact B|apply Qerr]].
+  now apply Hf.
+Qed.
+
+(* a transient room request taken from the bus *)
+Definition is_treq (p : pub) : Prop :=
+  exists b rn del key val, p_subj p = SubjBackendRoom b rn /\ p_msg p = ARoomReq (ATransient del key val).
+
+(* the operations for which the step of the induction is proved here.  Not covered: a join (OJoin), the requests of
+   an internal client (OInternal), the delivery of a publication other than a transient room request; a resume is
+   covered when the queue it flushes holds no hello reply (no queue ever does; that invariant is not proved here). *)
+Definition covered (h : hub) (o : op) : Prop :=
+  match o with
+  | OJoin _ _ _ _ | OInternal _ _ => False
+  | ODeliver pos => match take_nth (N.to_nat pos) (h_bus h) with Some (p, _) => is_treq p | None => True end
+  | OHello _ (HResume (IdPriv n)) => forall s, get_sess h n = Some s -> hello_free (s_pending s)
+  | _ => True
+  end.
+
+Lemma ri_drop h g c : Inv h -> RI h g -> RI (fst (step h (ODrop c))) (gouts g (snd (step h (ODrop c)))).
+Proof.
+  intros Iv I. cbn [step]. destruct (aget (h_conns h) c) as [cn|]; [|exact I].
+  assert (Qc : qouts [Closed c]) by (apply qouts_cons; [intros; discriminate|apply qouts_nil]).
+  destruct (c_sess cn) as [sid|]; [|cbn [fst snd]; rewrite (gouts_quiet _ _ Qc); eapply ri_eq; [| | |exact I]; reflexivity].
+  change (get_sess (set_conns h (adel (h_conns h) c)) sid) with (get_sess h sid).
+  destruct (get_sess h sid) as [s|] eqn:Hs; [|cbn [fst snd]; rewrite (gouts_quiet _ _ Qc); eapply ri_eq; [| | |exact I]; reflexivity].
+  cbn [fst snd]. rewrite (gouts_quiet _ _ Qc).
+  apply (ri_nr (fun y => y = sid) h); [exact I| |].
+  - match goal with |- NR _ _ ?H => change (NR (fun y => y = sid) h (put_sess h sid (sess_conn s None))) end.
+    apply nr_put_ex; [reflexivity|apply nr_refl].
+  - intros x s' -> Hs'. unfold get_sess in Hs'. cbn in Hs'. rewrite aget_aset_same in Hs'. injection Hs' as <-.
+    destruct (ri_sess _ _ I sid s Hs) as [Bn Vc Rp]. constructor; cbn; [intros c' E; discriminate|auto|].
+    intros V. specialize (Rp V). exact Rp.
+Qed.
+
+Theorem ri_step h g o : WF h -> Inv h -> Bij h -> BusNT h -> RI h g -> covered h o ->
+  RI (fst (step h o)) (gouts g (snd (step h o))).
+Proof.
+  intros W Iv Bj Bn I Cv.
+  assert (Q : forall r, nres noex h r -> RI (fst r) (gouts g (snd r))) by (intros r; now apply ri_quiet).
+  assert (Qerr : forall c e, qouts [ToConn c (SError e)]) by (intros c e; apply qouts_cons; [intros ? ? E; injection E as <- <-; reflexivity|apply qouts_nil]).
+  destruct o as [c a|c hl|c rn rs rep|c to tag|c to tag|c|c|secs|b sg rm q|c q|c to mk st md|tok ok|c kindn key val|pos|c hl late];
+    try destruct Cv.
+  - (* OConnect *) apply Q. cbn [step]. destruct (aget (h_conns h) c); split; cbn [fst snd]; try apply nr_refl; try apply qouts_nil.
+    + change (NR noex h h). apply nr_refl.
+    + apply qouts_cons; [intros ? ? E; injection E as <- <-; reflexivity|apply qouts_nil].
+  - (* OHello *) cbn [step]. destruct (aget (h_conns h) c) as [cn|] eqn:Ec; [|exact I]. destruct (c_sess cn) eqn:Es; [exact I|].
+    set (h' := set_conns h _).
+    assert (I' : RI h' g) by (eapply ri_eq; [| | |exact I]; reflexivity).
+    assert (Iv' : Inv h') by (destruct Iv as [A B]; constructor; [exact A|exact B]).
+    assert (Hc : forall y t, get_sess h' y = Some t -> s_conn t <> Some c).
+    { intros y t Ht Hct. destruct (Bj y c) as (cn' & Hcn' & Hs'); [exists t; split; [exact Ht|exact Hct]|]. congruence. }
+    destruct hl as [b u rej|b u t|b tok f d|i].
+    + unfold do_hello. destruct (h_nb h' <=? b); [apply (ri_quiet h'); [exact I'|split; [change (NR noex h' h'); apply nr_refl|apply Qerr]]|].
+      destruct rej.
+      * apply (ri_quiet h'); [exact I'|split; [change (NR noex h' h'); apply nr_refl|]].
+        apply qouts_cons; [intros; discriminate|apply Qerr].
+      * pose proof (ri_register h' g c cn b KClient u eq_refl I' Hc) as R. destruct (register h' c cn b KClient u) as [h1 outs]. exact R.
+    + unfold do_hello. destruct (v2_check (h_nb h') b t); [now apply ri_register|].
+      apply (ri_quiet h'); [exact I'|split; [change (NR noex h' h'); apply nr_refl|apply Qerr]].
+    + unfold do_hello. destruct (N.eqb tok 4); [apply (ri_quiet h'); [exact I'|split; [change (NR noex h' h'); apply nr_refl|apply Qerr]]|].
+      destruct (throttled h' (c_addr cn) ACT_INTERNAL); [apply (ri_quiet h'); [exact I'|split; [change (NR noex h' h'); apply nr_refl|apply Qerr]]|].
+      destruct (negb (N.eqb tok 0)); [apply (ri_quiet h'); [exact I'|split; [change (NR noex h' h'); apply nr_refl|apply Qerr]]|].
+      destruct (h_nb h' <=? b); [apply (ri_quiet h'); [exact I'|split; [change (NR noex h' h'); apply nr_refl|apply Qerr]]|].
+      now apply ri_register.
+    + apply ri_resume; auto. intros n s -> Hs. cbn in Cv. apply Cv. exact Hs.
+  - (* OMsg *) apply Q. cbn [step]. apply nr_with_session; [|apply nr_refl]. intros. apply nr_do_message, nr_refl.
+  - (* OCtl *) apply Q. cbn [step]. apply nr_with_session; [|apply nr_refl]. intros.
+    destruct (allowed_control s); [apply nr_do_message, nr_refl|split; [apply nr_refl|apply qouts_nil]].
+  - (* OBye *) apply Q. cbn [step]. destruct (aget (h_conns h) c) as [cn|]; [|split; [apply nr_refl|apply qouts_nil]].
+    destruct (c_sess cn); [apply nr_send_conn; [reflexivity|apply nr_refl]|split; [apply nr_refl|apply Qerr]].
+  - (* ODrop *) now apply ri_drop.
+  - (* OTick *) apply Q. cbn [step]. apply nr_do_tick, nr_refl.
+  - (* OApi *) apply Q. cbn [step]. destruct (negb (b =? sg) || (h_nb h <=? b)); [split; [apply nr_refl|apply qouts_nil]|apply nr_do_api, nr_refl].
+  - (* OMedia *) apply Q. cbn [step]. apply nr_with_session; [|apply nr_refl]. intros. apply nr_do_media; [assumption|apply nr_refl].
+  - (* OMcuDone *) apply Q. cbn [step]. apply nr_do_mcudone, nr_refl.
+  - (* OTransient *) cbn [step]. unfold with_session.
+    destruct (aget (h_conns h) c) as [cn|]; [|exact I].
+    destruct (c_sess cn) as [sid|]; [|apply Q; split; [apply nr_refl|apply Qerr]].
+    destruct (get_sess h sid) as [s|]; [|apply Q; split; [apply nr_refl|apply Qerr]].
+    destruct (s_room s) as [k|]; [|apply Q; split; [apply nr_refl|apply Qerr]].
+    destruct (2 <=? kindn); [apply Q; split; [apply nr_refl|apply Qerr]|].
+    destruct (negb (allowed_transient s)); [apply Q; split; [apply nr_refl|apply Qerr]|].
+    destruct (room_of h k) as [r|] eqn:Hr; [|exact I]. now apply ri_transient_update.
+  - (* ODeliver: a transient room request *) cbn [step covered] in *. unfold deliver_at.
+    destruct (take_nth (N.to_nat pos) (h_bus h)) as [[p rest]|]; [|exact I].
+    destruct Cv as (b & rn & del & key & val & Es & Em). unfold deliver_pub. rewrite Es, Em. unfold room_request.
+    set (h' := set_bus h rest).
+    assert (I' : RI h' g) by (eapply ri_eq; [| | |exact I]; reflexivity).
+    assert (Iv' : Inv h') by (destruct Iv as [A B]; constructor; [exact A|exact B]).
+    assert (W' : WF h') by (apply (wf_equiv _ _ h); [apply equiv_bus|exact W]).
+    destruct (room_of h' (b, rn)) as [r|] eqn:Hr; [|exact I']. now apply ri_transient_update.
+  - (* OHelloAborted *) apply Q. cbn [step]. destruct (aget (h_conns h) c) as [cn|]; [|split; [apply nr_refl|apply qouts_nil]].
+    destruct (c_sess cn); [split; [apply nr_refl|apply qouts_nil]|].
+    destruct hl as [b u rej|b u t|b tok f d|i]; try (split; [apply nr_refl|apply qouts_nil]).
+    + destruct rej; [split; [apply nr_refl|apply qouts_nil]|]. destruct (h_nb h <=? b); [split; [apply nr_refl|apply qouts_nil]|].
+      assert (B1 : NR noex h (if late then set_nextsid h (next_id h) else h)).
+      { destruct late; [apply nr_nextsid; [apply nr_refl|pose proof (next_id_gt h); lia]|apply nr_refl]. }
+      pose proof (nr_close_conn noex h _ c B1) as [B2 Q2]. destruct (close_conn (if late then set_nextsid h (next_id h) else h) c) as [h2 outs].
+      split; cbn [fst snd] in *; [exact B2|apply qouts_cons; [intros; discriminate|exact Q2]].
+    + apply nr_close_conn, nr_refl.
+Qed.
+
+(* ------------------------------------------------------------------ histories (async semantics: Hub_wf.run, deliveries in any order) *)
+Definition gstep (st : hub * ghost) (o : op) : hub * ghost := (fst (step (fst st) o), gouts (snd st) (snd (step (fst st) o))).
+Definition grun (st : hub * ghost) (ops : list op) : hub * ghost := fold_left gstep ops st.
+
+Fixpoint covered_hist (h : hub) (ops : list op) : Prop :=
+  match ops with [] => True | o :: r => covered h o /\ covered_hist (fst (step h o)) r end.
+
+Lemma grun_hub ops : forall st, fst (grun st ops) = run (fst st) ops.
+Proof. induction ops as [|o r IH]; intros st; cbn [grun fold_left run]; [reflexivity|]. apply IH. Qed.
+
+(* the replica of a member is the data of its room: what RI says for one session *)
+Definition replica_ok (h : hub) (g : ghost) : Prop :=
+  forall x s k, get_sess h x = Some s -> is_virtual (s_kind s) = false -> s_room s = Some k ->
+    exists r d, room_of h k = Some r /\ r_transient r = d /\
+                replayT (s_pending s) (g_rep g x) = Some (snd k, d) /\
+                (forall c, s_conn s = Some c -> s_pending s = [] /\ g_rep g x = Some (snd k, d)).
+
+Lemma ri_replica_ok h g : WF h -> Inv h -> RI h g -> replica_ok h g.
+Proof.
+  intros W Iv I x s k Hs Hv Hk. pose proof (ri_rep _ _ _ _ (ri_sess _ _ I x s Hs) Hv) as Rp. rewrite Hk in Rp.
+  destruct Rp as (_ & d & Hd & Hroom). destruct (wf_room _ _ h W x s k Hs Hk) as [[]|(r & Hr & _)].
+  exists r, d. split; [exact Hr|]. split; [now apply Hroom|]. split; [exact Hd|].
+  intros c Hc. assert (Hp : s_pending s = []) by (apply (inv_conn h Iv x s Hs); congruence). split; [exact Hp|].
+  rewrite Hp in Hd. exact Hd.
+Qed.
+
+(* T2, partial: from any state that satisfies the invariants of reachable states and RI, every continuation made
+   of covered operations keeps RI *)
+Theorem ri_run ops : forall h g, WF h -> Inv h -> TI h -> BusNT h -> RI h g -> covered_hist h ops ->
+  let st := grun (h, g) ops in WF (fst st) /\ Inv (fst st) /\ RI (fst st) (snd st).
+Proof.
+  induction ops as [|o r IH]; intros h g W Iv Ti Bn I Cv; cbn [grun fold_left]; [cbn; auto|].
+  destruct Cv as [Co Cr]. apply IH; cbn [gstep fst snd].
+  - now apply wf_step.
+  - apply (inv_stepx false h o Iv).
+  - now apply ti_step.
+  - now apply busnt_step.
+  - apply ri_step; auto. apply Ti.
+  - exact Cr.
+Qed.
+
+Lemma ri_init limits gated : RI (init limits gated) g0.
+Proof. constructor; [intros x s H; unfold get_sess, init in H; cbn in H; discriminate|reflexivity]. Qed.
+
+Theorem replica_converges_covered limits gated ops :
+  covered_hist (init limits gated) ops ->
+  let st := grun (init limits gated, g0) ops in replica_ok (fst st) (snd st).
+Proof.
+  intros Cv. destruct (ri_run ops (init limits gated) g0 (wf_init _ _) (inv_init _ _) (ti_init _ _) (busnt_init _ _) (ri_init _ _) Cv) as (W & Iv & I).
+  now apply ri_replica_ok.
+Qed.
+Print Assumptions ri_run.
+Print Assumptions replica_converges_covered.
